@@ -1,5 +1,13 @@
 (* Proofs/CssRoundTrip.v -- round trip  parse (print x) = x  for the CSS front end
-   (CssParse.v): selectors, rule sets, style sheets.  No axioms.
+   (CssParse.v): selectors, rule sets, style sheets; optional whitespace is insignificant.
+   No axioms.
+
+   Main theorems
+     parse_selector_rt, parse_selector_rt_ws        (section 7)
+     parse_ruleset_rt, parse_ruleset_rt_canon       (section 10)
+     parse_stylesheet_rt_ws, parse_stylesheet_rt    (section 10)
+     insignificant_whitespace                       (section 10)
+   Findings (section 12): `:nth-child(2n + 1)` and `p::before , q` are not accepted.
 
    Concrete syntax chosen for the printer (canonical spelling):
      selector   = components in SOURCE order (the parser stores them right-to-left, so
@@ -7,8 +15,28 @@
      CElement n = n            CClass n = `.` n         CHash h = `#` h        CStar = `*`
      CCombChild = ` > `        CCombDescendant = ` ` (one space)
      CNthChild a b = `:nth-child(` [-]|a| `n` (+|-)|b| `)`     e.g. :nth-child(2n+1), (-3n-2), (0n+5)
-   Identifiers: the SIMPLE ALPHABET  [a-z0-9_-]  (lower case because the parser lowercases;
-   no escapes `\..`, no non-ASCII) - see `ident_okb`.  The general case (escapes) is not done. *)
+     declaration = `color: #rrggbb` | `background-color: #rrggbb` | `display: none` | `display: block`
+                   (DDisplay false), each optionally followed by ` !important`
+     rule set    = `sel, sel { decl; decl }` newline
+
+   Well-formed selectors, [wf_selector] (a boolean): with l = rev (comps s) the source order,
+     - every component is [comp_ok]: identifiers of CElement / CClass are
+       [-](_|a-z)(_|a-z|0-9|-)*, those of CHash (_|a-z|0-9|-)+, |a|,|b| <= 2^31-1 (the range the
+       parser accepts: it parses the magnitude as an i32 and then applies the sign);
+     - [chain l]: each component may be followed by the first printed character of the next
+       one ([follow]): no identifier directly after an identifier (`.a` `b` would read `.ab`),
+       no two combinators in a row;
+     - l is not empty and neither starts nor ends with a combinator.
+   RESTRICTIONS with respect to "everything parse_selector can return":
+     - identifiers over the SIMPLE ALPHABET only: lower case (the parser lowercases A-Z), no
+       escapes `\41 ` / `\{`, no non-ASCII characters.  The cw / ws / lab fields of the identifier
+       characters are arbitrary (they survive the round trip), except that a leading `-` must be
+       the parser's own [dash] character, which is what parse_ident returns.  The general case
+       (escapes) is NOT done.
+     - the parser also accepts and returns `> a`, `a >` and `a > > b` (leading, trailing, doubled
+       child combinator; not CSS); these are excluded from [wf_selector].
+     - a descendant combinator at either end is never returned (pop_desc), so excluding it is
+       no restriction. *)
 From H2T Require Import Base Tagged Wrap Css Dom CssParse Proofs.CssTotal.
 From Coq Require Import Lia ZifyN ZifyBool ZifyNat.
 Local Arguments N.add : simpl never.
@@ -1475,7 +1503,7 @@ Section Sels.
       + exists Zb, Zb. split; [|split].
         * destruct (w_sel p) as [|c w] eqn:Ew.
           -- cbn [app]. apply parse_selector_rt; [exact Hs|intros _; exact HZ].
-          -- rewrite <- Ew. apply parse_selector_rt_ws; auto. rewrite Ew; discriminate.
+          -- apply parse_selector_rt_ws; auto; discriminate.
         * apply SR_nil. unfold comma_sep. rewrite ptag_nf by (apply nf_lit; reflexivity). reflexivity.
         * apply skip_ws_id, nf_lit; reflexivity.
     - cbn [forallb] in Hss. apply andb_prop in Hss; destruct Hss as [Hs2 Hss].
@@ -1502,3 +1530,243 @@ Section Sels.
     eapply separated_list0_R; eauto.
   Qed.
 End Sels.
+
+(* ------------------------------------------------------------------ *)
+(* 10. MAIN THEOREMS 2 and 3: rule sets and style sheets, with optional whitespace *)
+Definition ruleset_ok (r : cssruleset) : bool :=
+  match crs_selectors r with [] => false | _ => true end &&
+  forallb wf_selector (crs_selectors r) && forallb decl_ok (crs_decls r).
+
+Lemma many0_semi_ws_none : forall k, many0 semi_ws (of_ascii [125] ++ k) = POk [] (of_ascii [125] ++ k).
+Proof.
+  intros k. apply many0_R, MR_nil. unfold semi_ws. rewrite ptag_nf by (apply nf_lit; reflexivity). reflexivity.
+Qed.
+
+Theorem parse_ruleset_rt : forall p r rest,
+  wsp_ok p -> ruleset_ok r = true ->
+  parse_ruleset (print_ruleset_ws p r ++ rest) = POk r (skip_ws (w_end p ++ rest)).
+Proof.
+  intros p [ss ds] rest Hp Hr. unfold ruleset_ok in Hr; cbn [crs_selectors crs_decls] in Hr.
+  apply andb_prop in Hr; destruct Hr as [Hr Hds]. apply andb_prop in Hr; destruct Hr as [Hne Hss].
+  assert (Hne' : ss <> []) by (destruct ss; [cbn in Hne; congruence|discriminate]).
+  unfold print_ruleset_ws; cbn [crs_selectors crs_decls]. rewrite <- !app_assoc.
+  destruct (sels_ok p Hp (w_open p ++ print_decls_ws p ds ++ w_close p ++ of_ascii [125] ++ w_end p ++ rest)
+                    ss Hne' Hss) as (r1 & Hsel & Hr1).
+  destruct (parse_rules_ok p Hp (w_end p ++ rest) ds Hds) as (K' & Hrules & HK').
+  unfold parse_ruleset. cbv zeta.
+  assert (Hstart : nf wsstart (print_sels_ws p ss ++ w_sel p ++ of_ascii [123] ++ w_open p ++
+                    print_decls_ws p ds ++ w_close p ++ of_ascii [125] ++ w_end p ++ rest)).
+  { destruct ss as [|s ss']; [congruence|]. cbn [print_sels_ws]. rewrite <- app_assoc.
+    cbn [forallb] in Hss. apply andb_prop in Hss; destruct Hss as [Hs _].
+    apply sel_first; [exact Hs|]. intros x Hx; unfold selstart in Hx; cls. }
+  rewrite (skip_ws_id _ Hstart). rewrite Hsel. cbn [pbind].
+  rewrite Hr1. rewrite ptag_lit. cbn [pbind].
+  rewrite Hrules. cbn [pbind]. rewrite HK'.
+  rewrite many0_semi_ws_none. cbn [pbind].
+  rewrite skip_ws_id by (apply nf_lit; reflexivity). rewrite ptag_lit. reflexivity.
+Qed.
+
+(* a sheet: rule sets, each with its own whitespace choices *)
+Definition print_sheet_ws (prs : list (wsp * cssruleset)) : text :=
+  flat_map (fun pr => print_ruleset_ws (fst pr) (snd pr)) prs.
+Definition sheet_ok (prs : list (wsp * cssruleset)) : Prop :=
+  Forall (fun pr => wsp_ok (fst pr) /\ ruleset_ok (snd pr) = true) prs.
+
+Lemma print_ruleset_first : forall (P : N -> bool) p r k, ruleset_ok r = true ->
+  (forall x, selstart x = true -> P x = false) -> nf P (print_ruleset_ws p r ++ k).
+Proof.
+  intros P p [ss ds] k Hr HP. unfold ruleset_ok in Hr; cbn [crs_selectors crs_decls] in Hr.
+  apply andb_prop in Hr; destruct Hr as [Hr _]. apply andb_prop in Hr; destruct Hr as [Hne Hss].
+  destruct ss as [|s ss]; [cbn in Hne; congruence|].
+  cbn [forallb] in Hss. apply andb_prop in Hss; destruct Hss as [Hs _].
+  unfold print_ruleset_ws; cbn [crs_selectors print_sels_ws]. rewrite <- !app_assoc.
+  apply sel_first; auto.
+Qed.
+
+Lemma sheet_many : forall prs, sheet_ok prs ->
+  ManyR parse_statement (print_sheet_ws prs) (map (fun pr => Some (snd pr)) prs) [] /\
+  nf wsstart (print_sheet_ws prs).
+Proof.
+  induction prs as [|[p r] prs IH]; intros Hok.
+  - split; [apply MR_nil; reflexivity|exact I].
+  - inversion Hok as [|pr prs' [Hp Hr] Hok']; subst. cbn [fst snd] in *.
+    destruct (IH Hok') as [HM Hnf].
+    unfold print_sheet_ws; cbn [flat_map map fst snd]. fold (print_sheet_ws prs).
+    split.
+    + destruct Hp as (_ & _ & _ & _ & _ & _ & _ & _ & _ & Hend).
+      assert (Hp : wsp_ok p) by (inversion Hok as [|? ? [H ?] ?]; exact H).
+      eapply MR_cons; [| |exact HM].
+      * unfold parse_statement. rewrite (parse_ruleset_rt p r _ Hp Hr). cbn [pmap palt].
+        rewrite skip_ws_wsm by assumption. reflexivity.
+      * apply len_app_lt. intros E.
+        pose proof (print_ruleset_first (fun _ => true) p r [] Hr) as H.
+        rewrite E in H. cbn [app nf] in H.
+        unfold print_ruleset_ws in E. destruct r as [[|s ss] ds]; [discriminate|].
+        cbn [crs_selectors print_sels_ws] in E. rewrite <- !app_assoc in E.
+        unfold ruleset_ok in Hr; cbn [crs_selectors crs_decls] in Hr.
+        apply andb_prop in Hr; destruct Hr as [Hr _]. apply andb_prop in Hr; destruct Hr as [_ Hss].
+        cbn [forallb] in Hss. apply andb_prop in Hss; destruct Hss as [Hs _].
+        apply (print_selector_ne s Hs). destruct (print_selector s); [reflexivity|discriminate].
+    + apply print_ruleset_first; [exact Hr|]. intros x Hx; unfold selstart in Hx; cls.
+Qed.
+
+Theorem parse_stylesheet_rt_ws : forall prs, sheet_ok prs ->
+  parse_stylesheet (print_sheet_ws prs) = POk (map snd prs) [].
+Proof.
+  intros prs Hok. unfold parse_stylesheet.
+  rewrite (many0_R _ _ _ _ _ (proj1 (sheet_many prs Hok))). cbn [pbind].
+  f_equal. induction prs as [|pr prs IH]; [reflexivity|].
+  cbn [map flat_map app]. f_equal. apply IH. inversion Hok; assumption.
+Qed.
+
+(* the canonical printer: parse (print rs) = rs *)
+Lemma canon_ok : wsp_ok canon.
+Proof.
+  unfold wsp_ok, canon, sp1; cbn [w_comma w_sel w_open w_c1 w_c2 w_imp w_s1 w_s2 w_close w_end].
+  repeat split; try apply wsm_nil; (apply wsm_ws; [reflexivity|apply wsm_nil]).
+Qed.
+
+Theorem parse_ruleset_rt_canon : forall r rest, ruleset_ok r = true ->
+  parse_ruleset (print_ruleset r ++ rest) = POk r (skip_ws rest).
+Proof.
+  intros r rest Hr. unfold print_ruleset. rewrite (parse_ruleset_rt canon r rest canon_ok Hr).
+  cbn [w_end canon]. change (of_ascii [10] ++ rest) with (mk 10 1 :: rest).
+  rewrite skip_ws_cons by reflexivity. reflexivity.
+Qed.
+
+Theorem parse_stylesheet_rt : forall rs, forallb ruleset_ok rs = true ->
+  parse_stylesheet (concat (map print_ruleset rs)) = POk rs [].
+Proof.
+  intros rs Hrs.
+  assert (E : concat (map print_ruleset rs) = print_sheet_ws (map (fun r => (canon, r)) rs)).
+  { unfold print_sheet_ws. rewrite flat_map_concat_map, map_map. reflexivity. }
+  rewrite E, parse_stylesheet_rt_ws.
+  - rewrite map_map. cbn [snd]. rewrite map_id. reflexivity.
+  - unfold sheet_ok. apply Forall_forall. intros pr Hin. apply in_map_iff in Hin.
+    destruct Hin as (r & <- & Hin). cbn [fst snd]. split; [apply canon_ok|].
+    rewrite forallb_forall in Hrs. apply Hrs, Hin.
+Qed.
+
+(* C17, parsing side: style sheets that differ only in optional whitespace / comments
+   (at the positions of [wsp]) yield the same rules, hence style every document identically *)
+Theorem insignificant_whitespace : forall prs, sheet_ok prs ->
+  parse_css_rules (print_sheet_ws prs) = parse_css_rules (concat (map print_ruleset (map snd prs))).
+Proof.
+  intros prs Hok. unfold parse_css_rules.
+  rewrite (parse_stylesheet_rt_ws prs Hok).
+  rewrite parse_stylesheet_rt; [reflexivity|].
+  apply forallb_forall. intros r Hin. apply in_map_iff in Hin. destruct Hin as (pr & <- & Hin).
+  unfold sheet_ok in Hok. rewrite Forall_forall in Hok. apply (Hok pr Hin).
+Qed.
+
+(* ------------------------------------------------------------------ *)
+(* 11. non-vacuity *)
+Definition ex_rs1 : cssruleset :=
+  mkcrs [ex_sel1; ex_sel2]
+        [mkdecl (DColor 255 0 0) true; mkdecl (DBackgroundColor 0 128 255) false;
+         mkdecl (DDisplay true) false].
+Definition ex_rs2 : cssruleset := mkcrs [mksel [CElement (of_ascii [97])] None] [].
+
+Example ex_rs_ok : forallb ruleset_ok [ex_rs1; ex_rs2] = true. Proof. reflexivity. Qed.
+(* div > p.c #id :nth-child(2n+1), *.x-1::before { color: #ff0000 !important; background-color: #0080ff; display: none }
+   a {  }  *)
+Example ex_rs1_print : print_ruleset ex_rs1 = of_ascii
+  [100;105;118;32;62;32;112;46;99;32;35;105;100;32;58;110;116;104;45;99;104;105;108;100;40;50;110;43;49;41;
+   44;32;42;46;120;45;49;58;58;98;101;102;111;114;101;32;123;32;99;111;108;111;114;58;32;35;102;102;48;48;48;48;
+   32;33;105;109;112;111;114;116;97;110;116;59;32;98;97;99;107;103;114;111;117;110;100;45;99;111;108;111;114;58;
+   32;35;48;48;56;48;102;102;59;32;100;105;115;112;108;97;121;58;32;110;111;110;101;32;125;10].
+Proof. vm_compute. reflexivity. Qed.
+Example ex_rs2_print : print_ruleset ex_rs2 = of_ascii [97;32;123;32;32;125;10].
+Proof. vm_compute. reflexivity. Qed.
+Example ex_sheet_rt :
+  parse_stylesheet (concat (map print_ruleset [ex_rs1; ex_rs2])) = POk [ex_rs1; ex_rs2] [].
+Proof. apply parse_stylesheet_rt, ex_rs_ok. Qed.
+(* the same by computation, as a check of the statement itself *)
+Example ex_sheet_rt_computed :
+  parse_stylesheet (concat (map print_ruleset [ex_rs1; ex_rs2])) = POk [ex_rs1; ex_rs2] [].
+Proof. vm_compute. reflexivity. Qed.
+
+(* whitespace variant: comments and newlines everywhere
+   `sel,/* c */\n sel/* c */{\n\t decl /* c */:/* c */ val/* c */!important /* c */;\n ... /* c */}\r\n` *)
+Definition cmt : text := of_ascii [47;42;32;99;32;42;47].           (* /* c */ *)
+Definition ex_wsp : wsp :=
+  mkwsp (cmt ++ of_ascii [10;32]) cmt (of_ascii [10;9;32]) (of_ascii [32] ++ cmt) cmt cmt
+        (of_ascii [32] ++ cmt) (of_ascii [10]) cmt (of_ascii [13;10]).
+Lemma cmt_wsm : forall w, wsm w -> wsm (cmt ++ w).
+Proof. intros w Hw. apply (wsm_comment (of_ascii [32;99;32]) w); [reflexivity|exact Hw]. Qed.
+Example ex_wsp_ok : wsp_ok ex_wsp.
+Proof.
+  unfold wsp_ok, ex_wsp; cbn [w_comma w_sel w_open w_c1 w_c2 w_imp w_s1 w_s2 w_close w_end].
+  assert (Hc : wsm cmt) by (rewrite <- (app_nil_r cmt); apply cmt_wsm, wsm_nil).
+  repeat split; try exact Hc.
+  - apply cmt_wsm. repeat (apply wsm_ws; [reflexivity|]). apply wsm_nil.
+  - repeat (apply wsm_ws; [reflexivity|]). apply wsm_nil.
+  - apply wsm_ws; [reflexivity|exact Hc].
+  - apply wsm_ws; [reflexivity|exact Hc].
+  - repeat (apply wsm_ws; [reflexivity|]). apply wsm_nil.
+  - repeat (apply wsm_ws; [reflexivity|]). apply wsm_nil.
+Qed.
+Example ex_ws_same :
+  parse_css_rules (print_sheet_ws [(ex_wsp, ex_rs1); (canon, ex_rs2); (ex_wsp, ex_rs1)]) =
+  parse_css_rules (concat (map print_ruleset [ex_rs1; ex_rs2; ex_rs1])).
+Proof.
+  apply (insignificant_whitespace [(ex_wsp, ex_rs1); (canon, ex_rs2); (ex_wsp, ex_rs1)]).
+  unfold sheet_ok.
+  repeat (apply Forall_cons; [cbn [fst snd]; split; [first [apply ex_wsp_ok|apply canon_ok]|reflexivity]|]).
+  apply Forall_nil.
+Qed.
+Example ex_ws_computed :
+  parse_stylesheet (print_sheet_ws [(ex_wsp, ex_rs1); (canon, ex_rs2)]) = POk [ex_rs1; ex_rs2] [].
+Proof. vm_compute. reflexivity. Qed.
+Example ex_ws_differs : print_ruleset_ws ex_wsp ex_rs1 <> print_ruleset ex_rs1.
+Proof. vm_compute. discriminate. Qed.
+
+(* ------------------------------------------------------------------ *)
+(* 12. FINDINGS (insignificant syntax that the parser does not accept; not round-trip
+   failures: the canonical printer avoids these spellings).  Both confirmed on the
+   implementation (src/css/parser.rs parse_nth_child_args / parse_ruleset). *)
+(* (a) `li:nth-child(2n + 1){color:red}`: whitespace is skipped between `n` and the sign but
+       not between the sign and the digits, so the usual spelling `2n + 1` is not an An+B,
+       the selector stops before `:nth-child` and the whole rule set is dropped.
+       Likewise upper case `2N+1` / `EVEN` (CSS is case-insensitive there). *)
+Example finding_nth_space :
+  (exists r, parse_css_rules (of_ascii
+     [108;105;58;110;116;104;45;99;104;105;108;100;40;50;110;43;49;41;123;99;111;108;111;114;58;114;101;100;125])
+     = CssOk [r]) /\
+  parse_css_rules (of_ascii
+     [108;105;58;110;116;104;45;99;104;105;108;100;40;50;110;32;43;32;49;41;123;99;111;108;111;114;58;114;101;100;125])
+     = CssOk [] /\
+  parse_css_rules (of_ascii
+     [108;105;58;110;116;104;45;99;104;105;108;100;40;50;78;43;49;41;123;99;111;108;111;114;58;114;101;100;125])
+     = CssOk [].
+Proof. split; [eexists; vm_compute; reflexivity|split; vm_compute; reflexivity]. Qed.
+(* (b) `p::before , i{display:none}`: no whitespace is skipped before the `,` of a selector
+       list; after a plain selector the whitespace is eaten as a descendant combinator (and
+       dropped), after a pseudo-element it is not, and the rule set is dropped.  This is why
+       [wsp] has no "before the comma" position. *)
+Example finding_pseudo_comma :
+  (exists r1 r2, parse_css_rules (of_ascii
+     [112;58;58;98;101;102;111;114;101;44;32;105;123;100;105;115;112;108;97;121;58;110;111;110;101;125])
+     = CssOk [r1; r2]) /\
+  parse_css_rules (of_ascii
+     [112;58;58;98;101;102;111;114;101;32;44;32;105;123;100;105;115;112;108;97;121;58;110;111;110;101;125])
+     = CssOk [].
+Proof. split; [do 2 eexists; vm_compute; reflexivity|vm_compute; reflexivity]. Qed.
+
+Print Assumptions parse_ruleset_rt.
+Print Assumptions parse_stylesheet_rt_ws.
+Print Assumptions parse_ruleset_rt_canon.
+Print Assumptions parse_stylesheet_rt.
+Print Assumptions insignificant_whitespace.
+
+(* no finding here: non-canonical spellings of the child combinator, and `div *`
+   (an earlier defect read it as `div*`), parse to the same selectors as the canonical ones *)
+Definition sel_ab_child : selector :=
+  mksel [CElement (of_ascii [98]); CCombChild; CElement (of_ascii [97])] None.
+Example variants_ok :
+  parse_selector (of_ascii [97;62;98;123]) = POk sel_ab_child (of_ascii [123]) /\        (* a>b{ *)
+  parse_selector (of_ascii [97;32;32;62;98;123]) = POk sel_ab_child (of_ascii [123]) /\  (* a  >b{ *)
+  parse_selector (print_selector sel_ab_child ++ of_ascii [123]) = POk sel_ab_child (of_ascii [123]) /\
+  parse_selector (of_ascii [100;105;118;32;42;123]) =                                      (* div *{ *)
+    POk (mksel [CStar; CCombDescendant; CElement (of_ascii [100;105;118])] None) (of_ascii [123]).
+Proof. repeat split; vm_compute; reflexivity. Qed.
